@@ -109,6 +109,12 @@ def run(ctx, crate):
                 need = None
                 if cs is not None and cs.fn and O.iter_order(cs.fn["gargs"][0]) == "hash":
                     need = "collected from a hash-ordered iterator"
+                    dty = cs.term["dest"].get("ty") or ""
+                    if dty.startswith(("std::collections::BTreeMap<", "std::collections::BTreeSet<")):
+                        # collected into a collection that iterates in key order (Ord of the pattern enum = declaration order, total): that is the sort
+                        obs.append(Ob("R13.sanitizer", b.path, "%s into an ordered collection (%s)" % (need, dty.split("<")[0].rsplit("::", 1)[-1]), True, site=cs.where,
+                                      expected="sort with a total key before rendering", found="iteration in key order"))
+                        need = None
                 elif is_generator(b) and rooted_at_param(it) and lp.self_ty.startswith("std::vec::"):
                     need = "discovery-ordered list handed to the generator"
                 if need:
